@@ -114,4 +114,445 @@ theorem unmarshal_sound {m : Bytes} {c : Cmd} (h : unmarshal m = some c) :
               exact ⟨by simp [marshal, hu, hmd], hpre'⟩
             · simp [hr, hu] at h
 
+
+/-! ## the key order of `SortedKeys` -/
+
+theorem bytesLe_total (a b : Bytes) : bytesLe a b = true ∨ bytesLe b a = true := by
+  induction a generalizing b with
+  | nil => simp [bytesLe]
+  | cons x xs ih =>
+    cases b with
+    | nil => simp [bytesLe]
+    | cons y ys =>
+      simp only [bytesLe]
+      by_cases h1 : x.toNat < y.toNat
+      · simp [h1]
+      · by_cases h2 : y.toNat < x.toNat
+        · simp [h2]
+        · simp only [h1, h2, if_false]; exact ih ys
+
+theorem bytesLe_antisymm {a b : Bytes} (h1 : bytesLe a b = true) (h2 : bytesLe b a = true) : a = b := by
+  induction a generalizing b with
+  | nil => cases b with
+    | nil => rfl
+    | cons y ys => simp [bytesLe] at h2
+  | cons x xs ih =>
+    cases b with
+    | nil => simp [bytesLe] at h1
+    | cons y ys =>
+      simp only [bytesLe] at h1 h2
+      by_cases hxy : x.toNat < y.toNat
+      · have : ¬ y.toNat < x.toNat := by omega
+        simp [hxy, this] at h2
+      · by_cases hyx : y.toNat < x.toNat
+        · simp [hxy, hyx] at h1
+        · simp only [hxy, hyx, if_false] at h1 h2
+          have hx : x = y := UInt8.toNat_inj.mp (by omega)
+          rw [hx, ih h1 h2]
+
+theorem bytesLe_trans {a b c : Bytes} (h1 : bytesLe a b = true) (h2 : bytesLe b c = true) :
+    bytesLe a c = true := by
+  induction a generalizing b c with
+  | nil => simp [bytesLe]
+  | cons x xs ih =>
+    cases b with
+    | nil => simp [bytesLe] at h1
+    | cons y ys =>
+      cases c with
+      | nil => simp [bytesLe] at h2
+      | cons z zs =>
+        simp only [bytesLe] at h1 h2 ⊢
+        by_cases hxy : x.toNat < y.toNat
+        · by_cases hyz : y.toNat < z.toNat
+          · have : x.toNat < z.toNat := by omega
+            simp [this]
+          · by_cases hzy : z.toNat < y.toNat
+            · simp [hyz, hzy] at h2
+            · have : x.toNat < z.toNat := by omega
+              simp [this]
+        · by_cases hyx : y.toNat < x.toNat
+          · simp [hxy, hyx] at h1
+          · simp only [hxy, hyx, if_false] at h1
+            by_cases hyz : y.toNat < z.toNat
+            · have : x.toNat < z.toNat := by omega
+              simp [this]
+            · by_cases hzy : z.toNat < y.toNat
+              · simp [hyz, hzy] at h2
+              · simp only [hyz, hzy, if_false] at h2
+                have h3 : ¬ x.toNat < z.toNat := by omega
+                have h4 : ¬ z.toNat < x.toNat := by omega
+                simp only [h3, h4, if_false]
+                exact ih h1 h2
+
+theorem mem_insertKey (x y : Bytes) (l : List Bytes) : y ∈ insertKey x l ↔ y = x ∨ y ∈ l := by
+  induction l with
+  | nil => simp [insertKey]
+  | cons z t ih =>
+    unfold insertKey
+    split
+    · simp
+    · simp [ih]; grind
+
+@[simp] theorem mem_ksort (y : Bytes) (l : List Bytes) : y ∈ ksort l ↔ y ∈ l := by
+  induction l with
+  | nil => simp [ksort]
+  | cons x t ih => simp [ksort, mem_insertKey, ih]
+
+theorem insertKey_perm (x : Bytes) (l : List Bytes) : (insertKey x l).Perm (x :: l) := by
+  induction l with
+  | nil => simp [insertKey]
+  | cons z t ih =>
+    unfold insertKey
+    split
+    · exact List.Perm.refl _
+    · exact (List.Perm.cons z ih).trans (List.Perm.swap x z t)
+
+theorem ksort_perm (l : List Bytes) : (ksort l).Perm l := by
+  induction l with
+  | nil => simp [ksort]
+  | cons x t ih => exact (insertKey_perm x (ksort t)).trans (List.Perm.cons x ih)
+
+theorem insertKey_pairwise (x : Bytes) (l : List Bytes) (h : l.Pairwise (fun a b => bytesLe a b = true)) :
+    (insertKey x l).Pairwise (fun a b => bytesLe a b = true) := by
+  induction l with
+  | nil => simp [insertKey]
+  | cons z t ih =>
+    unfold insertKey
+    rw [List.pairwise_cons] at h
+    split
+    · rename_i hxz
+      rw [List.pairwise_cons]
+      refine ⟨?_, List.pairwise_cons.mpr h⟩
+      intro a ha
+      rcases List.mem_cons.mp ha with rfl | ha
+      · exact hxz
+      · exact bytesLe_trans hxz (h.1 a ha)
+    · rename_i hxz
+      rw [List.pairwise_cons]
+      refine ⟨?_, ih h.2⟩
+      intro a ha
+      rcases (mem_insertKey x a t).mp ha with rfl | ha
+      · rcases bytesLe_total a z with h' | h'
+        · exact absurd h' hxz
+        · exact h'
+      · exact h.1 a ha
+
+theorem ksort_pairwise (l : List Bytes) : (ksort l).Pairwise (fun a b => bytesLe a b = true) := by
+  induction l with
+  | nil => simp [ksort]
+  | cons x t ih => exact insertKey_pairwise x _ ih
+
+/-- two lists with the same elements (no repetitions) sort to the same list -/
+theorem ksort_eq_of_same_members {l₁ l₂ : List Bytes} (h1 : l₁.Nodup) (h2 : l₂.Nodup)
+    (h : ∀ k, k ∈ l₁ ↔ k ∈ l₂) : ksort l₁ = ksort l₂ := by
+  apply List.Perm.eq_of_pairwise (le := fun a b => bytesLe a b = true)
+  · intro a b _ _ hab hba; exact bytesLe_antisymm hab hba
+  · exact ksort_pairwise l₁
+  · exact ksort_pairwise l₂
+  · exact (ksort_perm l₁).trans (((List.perm_ext_iff_of_nodup h1 h2).mpr h).trans (ksort_perm l₂).symm)
+
+
+/-! ## the peer map against the history of handled commands -/
+
+/-- Simulation invariant: an entry of the map is the most recently handled register of its id
+(it expires `ttl` after the handling instant); an id without an entry was never registered, was
+unregistered last, or its last register expired before the node's current instant. -/
+def Inv (ttl : Int) (s : St) (h : Hist) : Prop :=
+  AList.NoDupKeys s.items ∧
+  ∀ k, match AList.get s.items k with
+    | some (a, e) => h k = some (a, e - ttl)
+    | none => h k = none ∨ ∃ a p, h k = some (a, p) ∧ p + ttl < s.now
+
+theorem inv_start (ttl : Int) (self : Node) (t : Int) :
+    Inv ttl (start ttl self t) (histStart self t) := by
+  refine ⟨AList.nodup_put _ AList.nodup_nil _ _, ?_⟩
+  intro k
+  simp only [start, histStart]
+  rw [AList.get_put]
+  by_cases hk : self.id = k
+  · simp only [hk, if_true]
+    have : t + ttl - ttl = t := by omega
+    simp [this]
+  · simp [hk]
+
+theorem inv_setNow {ttl : Int} {s : St} {h : Hist} (hi : Inv ttl s h) {t : Int} (ht : s.now ≤ t) :
+    Inv ttl { s with now := t } h := by
+  obtain ⟨h1, h2⟩ := hi
+  refine ⟨h1, ?_⟩
+  intro k
+  have hk := h2 k
+  cases hg : AList.get s.items k with
+  | none =>
+    simp only [hg] at hk ⊢
+    rcases hk with hk | ⟨a, p, hk, hlt⟩
+    · exact Or.inl hk
+    · exact Or.inr ⟨a, p, hk, by show p + ttl < t; omega⟩
+  | some ve => simp only [hg] at hk ⊢; exact hk
+
+theorem inv_cleanup {ttl : Int} {s : St} {h : Hist} (hi : Inv ttl s h) : Inv ttl (cleanup s) h := by
+  obtain ⟨h1, h2⟩ := hi
+  refine ⟨by simpa [cleanup] using AList.nodup_keep _ h1 _, ?_⟩
+  intro k
+  have hk := h2 k
+  simp only [cleanup]
+  rw [AList.get_keep _ h1]
+  cases hg : AList.get s.items k with
+  | none => simp [hg] at hk ⊢; exact hk
+  | some ve =>
+    obtain ⟨a, e⟩ := ve
+    simp only [hg] at hk
+    by_cases hx : expired s.now e = true
+    · simp only [Option.filter, hx]
+      right
+      refine ⟨a, e - ttl, hk, ?_⟩
+      simp only [expired, decide_eq_true_eq] at hx
+      omega
+    · simp only [Option.filter, hx]
+      simpa using hk
+
+theorem cleanup_now (s : St) : (cleanup s).now = s.now := rfl
+
+theorem listen_now (ttl : Int) (s : St) (m : Bytes) : (listen ttl s m).now = s.now := by
+  unfold listen
+  cases unmarshal m with
+  | none => rfl
+  | some c =>
+    obtain ⟨act, id, addr⟩ := c
+    cases act <;> rfl
+
+theorem histStep_none {h : Hist} {sent t : Int} {m : Bytes} (hu : unmarshal m = none) :
+    histStep h (.recv sent t m) = h := by simp [histStep, hu]
+
+theorem histStep_unreg {h : Hist} {sent t : Int} {m : Bytes} {id addr : Bytes}
+    (hu : unmarshal m = some ⟨.unregister, id, addr⟩) :
+    histStep h (.recv sent t m) = fun k => if id = k then none else h k := by simp [histStep, hu]
+
+theorem histStep_reg {h : Hist} {sent t : Int} {m : Bytes} {id addr : Bytes}
+    (hu : unmarshal m = some ⟨.register, id, addr⟩) :
+    histStep h (.recv sent t m) = fun k => if id = k then some (addr, t) else h k := by simp [histStep, hu]
+
+theorem listen_none {ttl : Int} {s : St} {m : Bytes} (hu : unmarshal m = none) : listen ttl s m = s := by
+  simp [listen, hu]
+
+theorem listen_unreg {ttl : Int} {s : St} {m : Bytes} {id addr : Bytes}
+    (hu : unmarshal m = some ⟨.unregister, id, addr⟩) :
+    listen ttl s m = cleanup { s with items := AList.del s.items id } := by simp [listen, hu]
+
+theorem listen_reg {ttl : Int} {s : St} {m : Bytes} {id addr : Bytes}
+    (hu : unmarshal m = some ⟨.register, id, addr⟩) :
+    listen ttl s m = cleanup { s with items := AList.put s.items id (addr, s.now + ttl) } := by
+  simp [listen, hu]
+
+theorem inv_listen {ttl : Int} {s : St} {h : Hist} (hi : Inv ttl s h) (sent : Int) (m : Bytes) :
+    Inv ttl (listen ttl s m) (histStep h (.recv sent s.now m)) := by
+  cases hu : unmarshal m with
+  | none => rw [listen_none hu, histStep_none hu]; exact hi
+  | some c =>
+    obtain ⟨act, id, addr⟩ := c
+    cases act with
+    | unregister =>
+      rw [listen_unreg hu, histStep_unreg hu]
+      apply inv_cleanup
+      obtain ⟨h1, h2⟩ := hi
+      refine ⟨AList.nodup_del _ h1 _, ?_⟩
+      intro k
+      have hk := h2 k
+      simp only
+      rw [AList.get_del]
+      by_cases hkk : id = k
+      · simp [hkk]
+      · simp only [hkk, if_false]; exact hk
+    | register =>
+      rw [listen_reg hu, histStep_reg hu]
+      apply inv_cleanup
+      obtain ⟨h1, h2⟩ := hi
+      refine ⟨AList.nodup_put _ h1 _ _, ?_⟩
+      intro k
+      have hk := h2 k
+      simp only
+      rw [AList.get_put]
+      by_cases hkk : id = k
+      · simp only [hkk, if_true]
+        have : s.now + ttl - ttl = s.now := by omega
+        simp [this]
+      · simp only [hkk, if_false]; exact hk
+
+theorem stepEv_now (ttl : Int) (s : St) (e : Ev) : (stepEv ttl s e).now = e.time := by
+  cases e with
+  | recv sent t m => simp [stepEv, listen_now, Ev.time]
+  | query t => simp [stepEv, cleanup_now, Ev.time]
+
+theorem inv_stepEv {ttl : Int} {s : St} {h : Hist} (hi : Inv ttl s h) (e : Ev) (ht : s.now ≤ e.time) :
+    Inv ttl (stepEv ttl s e) (histStep h e) := by
+  cases e with
+  | recv sent t m =>
+    simp only [Ev.time] at ht
+    exact inv_listen (inv_setNow hi ht) sent m
+  | query t =>
+    simp only [Ev.time] at ht
+    exact inv_cleanup (inv_setNow hi ht)
+
+theorem inv_foldl {ttl d : Int} (evs : List Ev) : ∀ (s : St) (h : Hist) (t : Int),
+    Inv ttl s h → Timed d s.now evs t →
+    Inv ttl (evs.foldl (stepEv ttl) s) (evs.foldl histStep h) ∧ (evs.foldl (stepEv ttl) s).now ≤ t := by
+  induction evs with
+  | nil => intro s h t hi hT; exact ⟨hi, hT⟩
+  | cons e es ih =>
+    intro s h t hi hT
+    obtain ⟨h1, _, h3⟩ := hT
+    simp only [List.foldl_cons]
+    apply ih _ _ _ (inv_stepEv hi e h1)
+    rw [stepEv_now]; exact h3
+
+theorem lookup_eq_present {ttl : Int} {s : St} {h : Hist} (hi : Inv ttl s h) {t : Int} (ht : s.now ≤ t)
+    (k : Bytes) : lookup { s with now := t } k = present ttl h t k := by
+  obtain ⟨_, h2⟩ := hi
+  have hk := h2 k
+  unfold lookup present
+  cases hg : AList.get s.items k with
+  | none =>
+    simp only [hg] at hk ⊢
+    rcases hk with hk | ⟨a, p, hk, hlt⟩
+    · simp [hk]
+    · simp only [hk]; rw [if_neg (by omega)]
+  | some ve =>
+    obtain ⟨a, e⟩ := ve
+    simp only [hg] at hk ⊢
+    simp only [hk, expired]
+    by_cases hx : e < t
+    · have h' : ¬ t ≤ e - ttl + ttl := by omega
+      simp [hx]
+    · have h' : t ≤ e - ttl + ttl := by omega
+      simp [hx]
+
+/-- **History-based characterisation of presence.**  Whatever the order in which registers and
+unregisters were handled, at instant `t` the map lists id `k` iff the most recently *handled*
+command for `k` is a register handled no more than `ttl` ago — and it lists that register's
+address. -/
+theorem presence_char {ttl d : Int} {self : Node} {startT : Int} {evs : List Ev} {t : Int}
+    (hT : Timed d startT evs t) (k : Bytes) :
+    lookup (stateAt ttl self startT evs t) k = present ttl (hist self startT evs) t k := by
+  have h := inv_foldl (ttl := ttl) evs (start ttl self startT) (histStart self startT) t
+    (inv_start ttl self startT) hT
+  exact lookup_eq_present h.1 h.2 k
+
+theorem inv_run {ttl d : Int} {self : Node} {startT : Int} {evs : List Ev} {t : Int}
+    (hT : Timed d startT evs t) :
+    Inv ttl (runEvs ttl self startT evs) (hist self startT evs) ∧ (runEvs ttl self startT evs).now ≤ t :=
+  inv_foldl (ttl := ttl) evs (start ttl self startT) (histStart self startT) t (inv_start ttl self startT) hT
+
+/-! ### where a history entry comes from -/
+
+/-- a history entry is the initial one, or was written by a handled register at that instant -/
+theorem hist_origin (evs : List Ev) : ∀ (h : Hist) (k a : Bytes) (p : Int),
+    evs.foldl histStep h k = some (a, p) →
+    h k = some (a, p) ∨ ∃ sent m, Ev.recv sent p m ∈ evs ∧ unmarshal m = some ⟨.register, k, a⟩ := by
+  induction evs with
+  | nil => intro h k a p hh; exact Or.inl hh
+  | cons e es ih =>
+    intro h k a p hh
+    simp only [List.foldl_cons] at hh
+    rcases ih _ k a p hh with h1 | ⟨sent, m, hm, hu⟩
+    · cases e with
+      | query t => simp only [histStep] at h1; exact Or.inl h1
+      | recv sent t m =>
+        simp only [histStep] at h1
+        cases hu : unmarshal m with
+        | none => simp only [hu] at h1; exact Or.inl h1
+        | some c =>
+          simp only [hu] at h1
+          obtain ⟨act, id, addr⟩ := c
+          cases act with
+          | unregister =>
+            simp only at h1
+            by_cases hid : id = k
+            · simp [hid] at h1
+            · simp only [hid, if_false] at h1; exact Or.inl h1
+          | register =>
+            simp only at h1
+            by_cases hid : id = k
+            · simp only [hid, if_true, Option.some.injEq, Prod.mk.injEq] at h1
+              right
+              refine ⟨sent, m, ?_, ?_⟩
+              · rw [← h1.2]; exact List.mem_cons_self
+              · rw [hu, hid, h1.1]
+            · simp only [hid, if_false] at h1; exact Or.inl h1
+    · exact Or.inr ⟨sent, m, List.mem_cons_of_mem _ hm, hu⟩
+
+/-- every handled message that names `k` is a register of `k` at address `a` -/
+def OnlyReg (k a : Bytes) (evs : List Ev) : Prop :=
+  ∀ s t m c, Ev.recv s t m ∈ evs → unmarshal m = some c → c.id = k → c = ⟨.register, k, a⟩
+
+theorem OnlyReg.tail {k a : Bytes} {e : Ev} {es : List Ev} (h : OnlyReg k a (e :: es)) : OnlyReg k a es :=
+  fun s t m c hm => h s t m c (List.mem_cons_of_mem _ hm)
+
+/-- once registered at `a`, an id that is only ever re-registered at `a` stays in the history,
+with a handling instant that never decreases -/
+theorem hist_keeps {d : Int} (evs : List Ev) : ∀ (h : Hist) (k a : Bytes) (p t0 t : Int),
+    h k = some (a, p) → p ≤ t0 → Timed d t0 evs t → OnlyReg k a evs →
+    ∃ p', p ≤ p' ∧ evs.foldl histStep h k = some (a, p') := by
+  induction evs with
+  | nil => intro h k a p t0 t hh _ _ _; exact ⟨p, Int.le_refl _, hh⟩
+  | cons e es ih =>
+    intro h k a p t0 t hh hp hT hO
+    obtain ⟨h1, _, h3⟩ := hT
+    simp only [List.foldl_cons]
+    have key : ∃ p1, p ≤ p1 ∧ p1 ≤ e.time ∧ histStep h e k = some (a, p1) := by
+      cases e with
+      | query t' => exact ⟨p, Int.le_refl _, by simp only [Ev.time] at h1 ⊢; omega, hh⟩
+      | recv sent t' m =>
+        simp only [Ev.time] at h1 ⊢
+        simp only [histStep]
+        cases hu : unmarshal m with
+        | none => exact ⟨p, Int.le_refl _, by omega, hh⟩
+        | some c =>
+          simp only
+          by_cases hid : c.id = k
+          · have hc := hO sent t' m c List.mem_cons_self hu hid
+            subst hc
+            exact ⟨t', by omega, Int.le_refl _, by simp⟩
+          · cases c.action with
+            | unregister => simp only [hid, if_false]; exact ⟨p, Int.le_refl _, by omega, hh⟩
+            | register => simp only [hid, if_false]; exact ⟨p, Int.le_refl _, by omega, hh⟩
+    obtain ⟨p1, hp1, hp1e, hh1⟩ := key
+    obtain ⟨p', hp', hres⟩ := ih _ k a p1 e.time t hh1 hp1e h3 hO.tail
+    exact ⟨p', by omega, hres⟩
+
+/-- a handled register of `k` at `a`, in a history that only ever re-registers `k` at `a`, leaves
+`k` in the history with a handling instant at least as late -/
+theorem hist_of_recv {d : Int} (evs : List Ev) : ∀ (h : Hist) (k a : Bytes) (sent p : Int) (m : Bytes) (t0 t : Int),
+    Ev.recv sent p m ∈ evs → unmarshal m = some ⟨.register, k, a⟩ → Timed d t0 evs t → OnlyReg k a evs →
+    ∃ p', p ≤ p' ∧ evs.foldl histStep h k = some (a, p') := by
+  induction evs with
+  | nil => intro h k a sent p m t0 t hm; simp at hm
+  | cons e es ih =>
+    intro h k a sent p m t0 t hm hu hT hO
+    obtain ⟨h1, _, h3⟩ := hT
+    simp only [List.foldl_cons]
+    rcases List.mem_cons.mp hm with he | hm'
+    · subst he
+      have hs : histStep h (Ev.recv sent p m) k = some (a, p) := by simp [histStep, hu]
+      exact hist_keeps es _ k a p p t hs (Int.le_refl _) h3 hO.tail
+    · exact ih _ k a sent p m e.time t hm' hu h3 hO.tail
+
+theorem timed_recv_delay {d : Int} (evs : List Ev) : ∀ (t0 t : Int), Timed d t0 evs t →
+    ∀ s a m, Ev.recv s a m ∈ evs → s ≤ a ∧ a ≤ s + d ∧ t0 ≤ a ∧ a ≤ t := by
+  induction evs with
+  | nil => intro t0 t _ s a m hm; simp at hm
+  | cons e es ih =>
+    intro t0 t hT s a m hm
+    obtain ⟨h1, h2, h3⟩ := hT
+    have hmono : ∀ (es : List Ev) (t1 : Int), Timed d t1 es t → t1 ≤ t := by
+      intro es
+      induction es with
+      | nil => intro t1 h; exact h
+      | cons e' es' ih' => intro t1 h; have := ih' _ h.2.2; have := h.1; omega
+    rcases List.mem_cons.mp hm with he | hm'
+    · subst he
+      simp only [Ev.DelayOK, Ev.time] at h1 h2 h3
+      have := hmono es a h3
+      exact ⟨h2.1, h2.2, h1, this⟩
+    · have := ih e.time t h3 s a m hm'
+      exact ⟨this.1, this.2.1, by omega, this.2.2.2⟩
+
 end Refinery.Model.Peers
